@@ -18,6 +18,12 @@
 (*          [k |-> "whole", v]     --x=<v>         (class name, path, dict) *)
 (*          [k |-> "dot", p, v]    --x.p1.p2=<v>   (dotted sub-option)     *)
 (*          [k |-> "cfg", v]       --cfg={"x": <v>}  (a config source)     *)
+(*   dflt   the DEFAULT of the argument: NoVal, or a spec (a dict with     *)
+(*          class_path / init_args, lazy_instance(C, **init_args))         *)
+(*   chan   how the FIRST source arrives: "argv" (all sources on the       *)
+(*          command line), "dcf" (a default_config_files file), "env"      *)
+(*          (the environment variable of --x), "string" (parse_string);    *)
+(*          the other sources follow on the command line                   *)
 (* Values: [k|->"int",i], [k|->"str",s], [k|->"dstr",i] (a str of digits), *)
 (* [k|->"null"], [k|->"ref",m,n] (a                                        *)
 (* class reference: m = "" bare name, "M" the family's module, "X" a       *)
@@ -217,12 +223,19 @@ Settle(fam, v) ==
     [] v.k = "list" -> VList([j \in 1..Len(v.l) |-> Settle(fam, v.l[j])])
     [] v.k = "dict" -> VDict([n \in DOMAIN v.d |-> Settle(fam, v.d[n])])
     [] OTHER        -> v
-RefParse(fam, dev, tc, items) ==
-  LET r0 == RefFold(fam, dev, tc, items, 1, NoVal)
+\* The default of the argument is the spec the sources update.  Whether the signature defaults of the default's class
+\* count as configured init_args (filled = TRUE: they survive a compatible class change) is not pinned by the
+\* documentation: the property allows both readings (RefOfF below is compared with both).
+RefStart(fam, dev, tc, dflt, filled) ==
+  IF dflt = NoVal THEN NoVal
+  ELSE LET d0 == RefApplyCls(fam, dev, tc, NoVal, dflt) IN IF d0 = Rej \/ ~filled THEN d0 ELSE Fill(fam, d0)
+RefParseD(fam, dev, tc, items, dflt, filled) ==
+  LET r0 == RefFold(fam, dev, tc, items, 1, RefStart(fam, dev, tc, dflt, filled))
       r1 == IF dev.stale /\ r0 # Rej THEN Settle(fam, r0) ELSE r0
       r == IF r1 = Rej \/ ~IsSpec(r1) THEN Rej ELSE RefApplyCls(fam, dev, tc, NoVal, AsInput(r1))     \* the explicit form, read as a whole (values kept across a class change are read by their new class)
   IN IF r = Rej \/ ~IsSpec(r) THEN Parsed(FALSE, Rej)
      ELSE IF AcceptSpec(fam, dev, tc, Fill(fam, r)) THEN Parsed(TRUE, Fill(fam, r)) ELSE Parsed(FALSE, Rej)
+RefParse(fam, dev, tc, items) == RefParseD(fam, dev, tc, items, NoVal, FALSE)
 
 \* ---- instantiation: the constructor log must rebuild exactly the normal form.
 \* log = sequence of [c, kw]: c the class (factory) called, kw: name -> value as received, objects as [k |-> "obj", i |-> index of the log entry that built it]
@@ -376,20 +389,50 @@ AlgInstParams(fam, v, i, log, kw) ==
   ELSE IF ps[i].n \notin DOMAIN v.a THEN AlgInstParams(fam, v, i + 1, log, kw)
   ELSE LET r == AlgInst(fam, v.a[ps[i].n], log) IN AlgInstParams(fam, v, i + 1, r.log, Overlay(kw, [x \in {ps[i].n} |-> r.v]))
 
+\* add_sub_defaults (_typehints.py:463-473 -> _apply_actions with an empty previous config): the value is adapted once more,
+\* from scratch, with defaults=True
+AlgSubDefaults(fam, tc, v) == IF ~IsSpec(v) THEN v
+                              ELSE LET r == AlgAdaptCls(fam, tc, AsInput(v), NoVal, TRUE) IN IF r = Rej THEN Rej ELSE Fill(fam, r)
+\* merge_config (_core.py:1381-1397): init_args of `to` that the class of `from` does not accept are discarded (the static
+\* discard_init_args_on_class_path_change, _typehints.py:413-436), then Namespace.update merges leaf by leaf
+RECURSIVE AlgMergeOver(_, _, _)
+AlgMergeOver(fam, to, from) ==
+  IF ~IsSpec(to) \/ ~IsSpec(from) THEN from
+  ELSE LET p2 == AlgDiscard(fam, to, from.c)
+           both == (DOMAIN p2.a) \cap (DOMAIN from.a)
+       IN S(from.c, [n \in (DOMAIN p2.a) \cup (DOMAIN from.a) |->
+                       IF n \in both THEN AlgMergeOver(fam, p2.a[n], from.a[n]) ELSE IF n \in DOMAIN from.a THEN from.a[n] ELSE p2.a[n]],
+            IF DOMAIN from.w # {} THEN from.w ELSE p2.w)
+\* ActionTypeHint.normalize_default:256-279 (dict with class_path / lazy instance -> namespace, class_path normalised)
+AlgDefault0(fam, tc, dflt) == IF dflt = NoVal THEN NoVal ELSE AlgAdaptCls(fam, tc, dflt, NoVal, TRUE)
+\* _check_type:568-570: a source that is checked while the accumulated config is still empty (default config file,
+\* first environment variable, parse_string) only knows the CLASS of the default
+PrevClassOnly(d) == IF IsSpec(d) THEN S(d.c, EF, EF) ELSE NoVal
+\* the first source through a channel other than the command line
+\* Recorded deviation "envreq": _load_env_vars (_core.py:523-551) checks the variable on its own and NOT leniently, so the
+\* required init_args must all be in the variable itself -- those supplied by the default do not count.
+EnvOnItsOwn(fam, tc, d0, v) == LET r == AlgAdaptCls(fam, tc, v, PrevClassOnly(d0), TRUE) IN r # Rej /\ ~AlgRequiredOK(fam, r)
+AlgChannel(fam, tc, chan, d0, v) ==
+  LET r == AlgAdaptCls(fam, tc, v, PrevClassOnly(d0), TRUE) IN
+  IF r = Rej THEN Rej
+  ELSE IF chan = "env" /\ ~AlgRequiredOK(fam, r) THEN Rej                                    \* deviation "envreq"
+  ELSE IF chan = "dcf" THEN AlgSubDefaults(fam, tc, AlgMergeOver(fam, d0, r))                 \* get_defaults:1019-1047, sub-defaults at its end
+  ELSE AlgMergeOver(fam, AlgSubDefaults(fam, tc, d0), r)                                     \* _parse_defaults_and_environ:406 / parse_string over get_defaults()
+
 \* the whole parse as a function of the sources (the machine below does the same one source per step)
 RECURSIVE AlgFold(_, _, _, _, _)
 AlgFold(fam, tc, items, j, c) ==
   IF j > Len(items) \/ c = Rej THEN c
   ELSE AlgFold(fam, tc, items, j + 1, AlgAdaptCls(fam, tc, ItemValue(items[j]), c, TRUE))
-\* add_sub_defaults (_typehints.py:463-473 -> _apply_actions with an empty previous config): the value is adapted once more,
-\* from scratch, with defaults=True
-AlgSubDefaults(fam, tc, v) == IF ~IsSpec(v) THEN v
-                              ELSE LET r == AlgAdaptCls(fam, tc, AsInput(v), NoVal, TRUE) IN IF r = Rej THEN Rej ELSE Fill(fam, r)
-AlgParse(fam, tc, items) ==
-  LET r0 == AlgFold(fam, tc, items, 1, NoVal)
+AlgParseD(fam, tc, items, dflt, chan) ==
+  LET d0 == AlgDefault0(fam, tc, dflt)
+      start == IF chan = "argv" \/ items = << >> THEN (IF d0 = Rej THEN Rej ELSE AlgSubDefaults(fam, tc, d0))
+               ELSE IF d0 = Rej THEN Rej ELSE AlgChannel(fam, tc, chan, d0, ItemValue(items[1]))
+      r0 == AlgFold(fam, tc, items, IF chan = "argv" \/ items = << >> THEN 1 ELSE 2, start)
       r == IF r0 = Rej THEN Rej ELSE AlgSubDefaults(fam, tc, r0)
   IN IF r = Rej \/ ~IsSpec(r) THEN Parsed(FALSE, Rej)
      ELSE IF AlgRequiredOK(fam, r) THEN Parsed(TRUE, r) ELSE Parsed(FALSE, Rej)
+AlgParse(fam, tc, items) == AlgParseD(fam, tc, items, NoVal, "argv")
 \* the explicit form of what the sources denote (the property's reading, before defaults), as one source
 ExplicitItems(fam, tc, items) ==
   LET r == RefFold(fam, CodeDev, tc, items, 1, NoVal) IN
@@ -408,12 +451,19 @@ VARIABLES cs,     \* the case
           ok,     \* "run" | "accept" | "reject"
           log     \* constructor log
 vars == <<cs, pc, i, cur, ok, log>>
-InitCase(c) == cs = c /\ pc = "source" /\ i = 1 /\ cur = NoVal /\ ok = "run" /\ log = << >>
+\* get_defaults(): the (sub-default filled) default is what the command line starts from; a default config file is merged
+\* into the unfilled default
+InitCase(c) == /\ cs = c /\ pc = "source" /\ i = 1 /\ ok = "run" /\ log = << >>
+               /\ cur = LET d0 == AlgDefault0(FamOf(c), c.T, c.dflt) IN
+                         IF d0 = Rej \/ d0 = NoVal THEN NoVal
+                         ELSE IF c.chan = "argv" \/ c.items = << >> THEN AlgSubDefaults(FamOf(c), c.T, d0) ELSE d0
 
 \* ActionTypeHint.__call__:521-552 (argv) / ActionConfigFile.apply_config -> _apply_actions (config): check the value with
 \* the previous one, merge
 ASource == /\ pc = "source" /\ i <= Len(cs.items)
-           /\ LET r == AlgAdaptCls(FamOf(cs), cs.T, ItemValue(cs.items[i]), cur, TRUE) IN
+           /\ LET r == IF i = 1 /\ cs.chan # "argv"
+                       THEN AlgChannel(FamOf(cs), cs.T, cs.chan, AlgDefault0(FamOf(cs), cs.T, cs.dflt), ItemValue(cs.items[1]))
+                       ELSE AlgAdaptCls(FamOf(cs), cs.T, ItemValue(cs.items[i]), cur, TRUE) IN
                 IF r = Rej THEN /\ ok' = "reject" /\ pc' = "done" /\ UNCHANGED <<cs, i, cur, log>>
                 ELSE /\ cur' = r /\ i' = i + 1 /\ UNCHANGED <<cs, pc, ok, log>>
 AEndSources == /\ pc = "source" /\ i > Len(cs.items)
@@ -438,21 +488,25 @@ AlgParsed == IF ok = "accept" THEN Parsed(TRUE, cur) ELSE Parsed(FALSE, Rej)
 (***************************************************************************)
 (* Invariants                                                              *)
 (***************************************************************************)
-RefOf(dev) == RefParse(FamOf(cs), dev, cs.T, cs.items)
+RefOfF(dev, filled) == RefParseD(FamOf(cs), dev, cs.T, cs.items, cs.dflt, filled)
+RefOf(dev) == RefOfF(dev, cs.chan # "dcf")          \* the reading the code follows: only a default config file meets the unfilled default
 \* does a source mention dict_kwargs (as a dotted segment or as a key of a dict, at any depth)?
 RECURSIVE MentionsDK(_)
 MentionsDK(v) == CASE v.k = "dict" -> "dict_kwargs" \in DOMAIN v.d \/ \E n \in DOMAIN v.d : MentionsDK(v.d[n])
                    [] v.k = "list" -> \E j \in 1..Len(v.l) : MentionsDK(v.l[j])
                    [] OTHER        -> FALSE
-InvolvesDictKwargs == \E j \in 1..Len(cs.items) : MentionsDK(cs.items[j].v) \/ (cs.items[j].k = "dot" /\ "dict_kwargs" \in SeqToSet(cs.items[j].p))
-\* the code is the reference with the two recorded dict_kwargs deviations -- and nothing else
-AlgRefinesRef == Done => AlgParsed = RefOf(CodeDev)
+InvolvesDictKwargs == MentionsDK(cs.dflt) \/ \E j \in 1..Len(cs.items) : MentionsDK(cs.items[j].v) \/ (cs.items[j].k = "dot" /\ "dict_kwargs" \in SeqToSet(cs.items[j].p))
+EnvReqDeviation == cs.chan = "env" /\ cs.items # << >>
+                   /\ EnvOnItsOwn(FamOf(cs), cs.T, AlgDefault0(FamOf(cs), cs.T, cs.dflt), ItemValue(cs.items[1]))
+                   /\ RefOf(CodeDev).ok                                    \* the property accepts, the code rejects
+\* the code is the reference with the recorded deviations (dict_kwargs: stale, nokw; env: envreq) -- and nothing else
+AlgRefinesRef == Done => IF EnvReqDeviation THEN AlgParsed = Parsed(FALSE, Rej) ELSE AlgParsed = RefOf(CodeDev)
 \* ... and the deviations are invisible unless dict_kwargs are used
 DevOnlyDictKwargs == (Done /\ ~InvolvesDictKwargs) => RefOf(NoDev) = RefOf(CodeDev)
-MachineIsFold == Done => AlgParsed = AlgParse(FamOf(cs), cs.T, cs.items)
+MachineIsFold == Done => AlgParsed = AlgParseD(FamOf(cs), cs.T, cs.items, cs.dflt, cs.chan)
 \* what is accepted satisfies the predicate of the property (modulo nokw), and its log rebuilds the normal form
 AcceptedIsValid == (Done /\ ok = "accept") => AcceptSpec(FamOf(cs), CodeDev, cs.T, cur)
 LogRebuilds == (Done /\ ok = "accept") => LogOK(FamOf(cs), cur, log, Len(log), Built(FamOf(cs), cur.c))
 \* Normal(short form) = Normal(explicit form)
-ShortEqualsExplicit == (Done /\ RefOf(CodeDev).ok /\ RefOf(NoDev) = RefOf(CodeDev)) => AlgParse(FamOf(cs), cs.T, ExplicitItems(FamOf(cs), cs.T, cs.items)) = AlgParsed
+ShortEqualsExplicit == (Done /\ cs.dflt = NoVal /\ RefOf(CodeDev).ok /\ RefOf(NoDev) = RefOf(CodeDev)) => AlgParse(FamOf(cs), cs.T, ExplicitItems(FamOf(cs), cs.T, cs.items)) = AlgParsed
 =============================================================================
